@@ -251,7 +251,13 @@ impl StateMachine<'_> {
                 &mut self.painter,
                 &mut self.mode_info,
                 self.config,
-            )
+            )?;
+            // The header of this file has now been written: remember that, otherwise it is
+            // written a second time (without the mode) when this function runs again for the same
+            // file, e.g. at the `diff` line that follows the next commit in `git log -p`.
+            self.handled_diff_header_header_line_file_pair
+                .clone_from(&self.current_file_pair);
+            Ok(())
         } else if !self.config.color_only
             // Whether delta writes its own file header depends on the file style, not on the style
             // of whatever state we happen to be in: for `diff -u` input this function also runs
